@@ -65,6 +65,9 @@ def side_effect_clause(cl, rng, n, replay):
             pattern = [(0.01, 0.02, 0.01), (0.02, 0.01, 0.01), (0.01, 0.01, 0.02, 0.005)][j % 3]
             raws = [rp.gen_window(rng, N=N, dt=d, scale=1.0) for d in pattern]
             L = len(raws)
+        if j % 4 == 2:
+            # raw counts ride on an offset much larger than their fluctuation (no detrending before process()): still the caller's samples afterwards
+            raws = [(r[0] + 25.0, r[1] - 40.0, r[2] + 12.5, r[3]) for r in raws]
         recs = [rp.mk_record(*r, degrees_from_north=float(rng.choice([0., 20.])), meta={"file name(s)": ["a.mseed", "b.mseed"], "tag": {"k": [1, 2]}}) for r in raws]
         width = float(rng.choice([0.1, 0.3, 1.0]))
         azs = [None, np.array([0., 90.]), np.array([0., 35., 90., 140.]), np.array([20., 65.])][j % 4]
